@@ -514,7 +514,7 @@ class Sim(object):
 
     def write_file(self, name, data, mode="w"):
         p = self.path(name)
-        with builtins.open(p, mode) as f:
+        with builtins.open(p, mode, **({} if "b" in mode else {"encoding": "utf-8", "newline": ""})) as f:
             f.write(data)
         return p
 
